@@ -1,7 +1,7 @@
 #!/bin/sh
 # usage: tools/seed_run.sh <seed-id> <tier> <Cxx> [--job name]   -- applies the seeded patch to /repo, runs the check, reverts.
 ID=$1; T=$2; shift 2
-cd /repo && git apply /verif/seeded/$ID/patch.diff || { echo "patch does not apply"; exit 3; }
+P=/verif/seeded/$ID/patch.diff; [ -f /verif/seeded/$ID/patch_rebased.diff ] && P=/verif/seeded/$ID/patch_rebased.diff; cd /repo && git apply $P || { echo "patch does not apply"; exit 3; }
 cd /verif
 VERIF_EVIDENCE_DIR=/tmp/seed_ev_$ID ./check "$@" --tier $T 2>&1 | grep -v "^  job" | tail -6 | cut -c1-400
 git -C /repo checkout -- . 
